@@ -178,6 +178,32 @@ def case_and_newlines(S, g, rep):
         parts = g.seq_list(cm["expr"])
         ok = parts and parts[0]["k"] == "str" and parts[0]["s"] == "#"
         rep.ob("R4", "COMMENT:starts-with-#", bool(ok), "comments start with '#'", "crates/cgt-core/src/parser.pest", key="R4:COMMENT:hash")
+        # a comment must stop before EVERY line ending the grammar knows (the LANG model assumes it runs exactly to end of line)
+        stops = set()
+
+        def strings_of(e, stack=()):
+            k = e["k"]
+            if k in ("str", "insens"):
+                return {e["s"]}
+            if k == "ident" and e["s"] in g.rules and e["s"] not in stack:
+                return strings_of(g.rules[e["s"]]["expr"], stack + (e["s"],))
+            if k == "choice":
+                return strings_of(e["a"], stack) | strings_of(e["b"], stack)
+            return set()
+
+        def find_negs(e):
+            if e["k"] == "neg":
+                stops.update(strings_of(e["e"]))
+            for x in ("a", "b", "e"):
+                if isinstance(e.get(x), dict):
+                    find_negs(e[x])
+        find_negs(cm["expr"])
+        nl_alts = [a["s"] for a in g.choice_list(nl["expr"]) if a["k"] == "str"] if nl is not None else []
+        uncovered = [a for a in nl_alts if not any(a.startswith(st) and st for st in stops)]
+        rep.ob("R4", "COMMENT:stops-at-every-line-ending", not uncovered and bool(nl_alts),
+               "a comment ends before any of the grammar's line endings" if not uncovered and nl_alts else
+               f"a comment only stops at {sorted(stops)!r}: with the line ending(s) {uncovered!r} it swallows the following lines, which are silently skipped",
+               "crates/cgt-core/src/parser.pest", key="R4:COMMENT:terminator")
 
 
 def iso_codes():
